@@ -57,3 +57,27 @@ impl<R: Read + Send> Iterator for ChunkIter<R> {
         }
     }
 }
+
+#[cfg(rustic_core_verif)]
+#[allow(missing_docs, clippy::all, clippy::pedantic, clippy::nursery)]
+pub mod verif_hooks {
+    use super::*;
+
+    /// `ChunkIter::from_config` for an external harness.
+    pub fn chunk_iter<R: Read + Send>(
+        config: &ConfigFile,
+        reader: R,
+        size_hint: usize,
+    ) -> RusticResult<impl Iterator<Item = RusticResult<Vec<u8>>>> {
+        ChunkIter::from_config(config, reader, size_hint)
+    }
+
+    /// `rabin::check_rabin_params` for an external harness.
+    pub fn check_rabin_params(
+        chunk_size: usize,
+        chunk_min_size: usize,
+        chunk_max_size: usize,
+    ) -> RusticResult<()> {
+        rabin::check_rabin_params(chunk_size, chunk_min_size, chunk_max_size)
+    }
+}
